@@ -35,6 +35,7 @@ type burstSpec struct {
 	DelayMs int      `json:"delay_ms"`
 	Rounds  int      `json:"rounds"`
 	Extra   int      `json:"extra"` // kind "slots": how many further hosts try to connect
+	IdleMs  int      `json:"idle_ms"` // kind "rate": idle time between a first request and the volley
 }
 
 func postSession(base string, query string) (int, string, map[string]any) {
@@ -281,6 +282,13 @@ func burstCase(args []string) string {
 			time.Sleep(60 * time.Millisecond)
 			out["rounds_done"] = round + 1
 		case "rate":
+			if g.IdleMs > 0 {
+				// one request creates the caller's bucket, then the caller stays idle long enough to refill it: the volley that
+				// follows may still pass only burst + rate * (its own duration)
+				st, msg, _ := postSession(s.base, "")
+				statuses = append(statuses, fmt.Sprintf("warmup:%d:%s", st, msg))
+				time.Sleep(time.Duration(g.IdleMs) * time.Millisecond)
+			}
 			t0 := time.Now()
 			ok := 0
 			for i := 0; i < g.N; i++ {
